@@ -16,4 +16,10 @@ AlpnsQuic == AllAlpns \ {"none"}
 AlpnsOk   == {"ntske/1"}
 CutNone   == {}
 CutCk     == {"ck"}
+\* the stall family (scripts in which the peer stalls past the caller's deadline):
+\* one representative per way a record acts on Fetcher.data and on the loop
+AlphaStall == {"a15", "ck", "sA", "e1", "eom"}
+CutStall   == {"ck", "eom"}
+AlphaStallDeep == AlphaStall \cup {"un"}
+CutStallDeep   == CutStall \cup {"un"}
 =============================================================================
